@@ -156,6 +156,10 @@ type mergeProcessor struct {
 	missingEncryptionBlocks map[cidlink.Link]struct{}
 	// availableEncryptionBlocks is a list of blocks that we have successfully fetched
 	availableEncryptionBlocks map[cidlink.Link]*coreblock.Encryption
+	// processedBlocks contains the blocks that have already been applied by this mergeProcessor.
+	// The composites are walked again once missing encryption blocks have been fetched, and
+	// the blocks that could be read the first time must not be applied a second time.
+	processedBlocks map[cidlink.Link]struct{}
 }
 
 func (db *DB) newMergeProcessor(
@@ -178,6 +182,7 @@ func (db *DB) newMergeProcessor(
 		composites:                list.New(),
 		missingEncryptionBlocks:   make(map[cidlink.Link]struct{}),
 		availableEncryptionBlocks: make(map[cidlink.Link]*coreblock.Encryption),
+		processedBlocks:           make(map[cidlink.Link]struct{}),
 	}, nil
 }
 
@@ -445,6 +450,11 @@ func (mp *mergeProcessor) processBlock(
 		return err
 	}
 
+	if _, alreadyProcessed := mp.processedBlocks[blockLink]; alreadyProcessed {
+		// applied during an earlier walk of the composites, only its links are followed again
+		canRead = false
+	}
+
 	if canRead {
 		crdt, err := mp.initCRDTForType(ctx, dagBlock.Delta)
 		if err != nil {
@@ -461,6 +471,7 @@ func (mp *mergeProcessor) processBlock(
 		if err != nil {
 			return err
 		}
+		mp.processedBlocks[blockLink] = struct{}{}
 	}
 
 	for _, link := range dagBlock.Links {
